@@ -3,6 +3,7 @@ import DaskModel.Model.NormalForm
 import DaskModel.Model.TaskNode
 import DaskModel.Model.Repack
 import DaskModel.Model.GraphMerge
+import DaskModel.Model.Delayed
 open Dask
 open Dask.NF
 open Dask.TaskNode
@@ -20,6 +21,7 @@ partial def decVal : SExp → Option Val
   | .list [.sym "bytes", b] => do pure (.bytes (← b.toNats?))
   | .list [.sym "none"] => some .none
   | .list [.sym "atom", .str r] => some (.atom r)
+  | .list [.sym "pickled", .str kind, v] => do pure (.pickled kind (← decVal v))
   | .list (.sym "list" :: xs) => do pure (.list (← xs.mapM decVal))
   | .list (.sym "tuple" :: xs) => do pure (.tuple (← xs.mapM decVal))
   | .list (.sym "set" :: xs) => do pure (.set (← xs.mapM decVal))
@@ -248,8 +250,50 @@ def hMergeEval : Handler := handler fun args =>
     pure (.list (keys.map (fun k => SExp.ofOptNat (GraphMerge.evalG merged fuel k))))
   | _ => none
 
+/-! ### C15: delayed programs -/
+
+mutual
+/-- `(leaf nm v)` `(call nm f (arg…))`; arg: `(lit v) (sub prog) (list arg…) (tuple arg…) (dict (k v)…)` -/
+partial def decProg : SExp → Option Delayed.E
+  | .list [.sym "leaf", nm, v] => do pure (.leaf (← nm.toNat?) (← v.toNat?))
+  | .list [.sym "call", nm, f, .list args] => do pure (.call (← nm.toNat?) (← f.toNat?) (← args.mapM decArg))
+  | _ => none
+partial def decArg : SExp → Option Delayed.Arg
+  | .list [.sym "lit", v] => do pure (.lit (← v.toNat?))
+  | .list [.sym "sub", e] => do pure (.sub (← decProg e))
+  | .list (.sym "list" :: xs) => do pure (.list (← xs.mapM decArg))
+  | .list (.sym "tuple" :: xs) => do pure (.tuple (← xs.mapM decArg))
+  | .list (.sym "dict" :: kvs) => do
+    pure (.dict (← kvs.mapM (fun e => match e with
+      | .list [k, v] => do pure ((← decArg k), (← decArg v))
+      | _ => none)))
+  | _ => none
+end
+
+/-- symbolic value algebra shared with the harness: a call is the code of (function, argument values), containers
+    are coded with the constants 1001 (list), 1002 (tuple), 1003 (dict, keys and values alternating) -/
+def codeSem : Delayed.Sem Nat where
+  lit := id
+  app := combine
+  mkList := combine 1001
+  mkTuple := combine 1002
+  mkDict := fun kvs => combine 1003 (kvs.flatMap (fun p => [p.1, p.2]))
+
+/-- `(delayedrun prog fuel)` ↦ `(eager graphvalue ((key (dep…))…))`: value of the program run eagerly, value of
+    its key in the graph the model assembles, and the dependencies of every key of that graph -/
+def hDelayedRun : Handler := handler fun args =>
+  match args with
+  | [p, fuel] => do
+    let e ← decProg p
+    let fuel ← fuel.toNat?
+    let g := Delayed.graphOf codeSem e
+    let names := ((Delayed.subexprs e).map Delayed.E.nm).eraseDups
+    let entries := names.filterMap (fun k => (g k).map (fun t => SExp.list [.int k, SExp.ofNats t.deps]))
+    pure (.list [.int (Int.ofNat (Delayed.evalE codeSem e)), SExp.ofOptNat (GraphMerge.evalG g fuel e.nm), .list entries])
+  | _ => none
+
 def table : List (String × Handler) :=
-  [("mergeeval", hMergeEval), ("unpack", hUnpack), ("unpacktop", hUnpackTop), ("tune", hTune),
+  [("delayedrun", hDelayedRun), ("mergeeval", hMergeEval), ("unpack", hUnpack), ("unpacktop", hUnpackTop), ("tune", hTune),
    ("nodepre", hNodePre), ("nodeclass", hNodeClass), ("nodeeval", hNodeEval),
    ("tokpre", hTokPre), ("tokprekw", hTokPreKw), ("pyrepr", hPyRepr), ("pystr", hPyStr), ("logical", hLogical)]
 
